@@ -377,6 +377,271 @@ def c_check_iso(inp):
     return None
 
 
+# ------------------------------------------------------------------ input construction variants, argument frames, repeated use
+BUILDS = ("np", "npf", "plain", "attr")
+
+
+def _build(kind, A, order=None):
+    """the same labelled graph built in different ways (vertices 0..n-1):
+       np     nx.from_numpy_array(int matrix)      - every edge carries weight=1
+       npf    nx.from_numpy_array(float matrix)    - weight=1.0
+       plain  nx.Graph() + add_edges_from          - no edge attributes at all (like nx.path_graph / nx.Graph(edge list))
+       attr   weight=1 plus other edge / node / graph attributes, edges added in reverse order
+       order  (only for fixed items) the sequence in which the nodes are inserted; default 0..n-1"""
+    A = np.array(A, dtype=int)
+    n = len(A)
+    if kind == "np" and order is None:
+        return nx.from_numpy_array(A.copy())
+    if kind == "npf" and order is None:
+        return nx.from_numpy_array(A.astype(float))
+    g = nx.Graph()
+    g.add_nodes_from(list(range(n)) if order is None else [int(x) for x in order])
+    edges = [(i, j) for i in range(n) for j in range(i + 1, n) if A[i, j]]
+    if kind == "plain":
+        g.add_edges_from(edges)
+    elif kind == "np":
+        g.add_edges_from(edges, weight=1)
+    elif kind == "npf":
+        g.add_edges_from(edges, weight=1.0)
+    elif kind == "attr":
+        g.graph["name"] = "target"
+        for k, (i, j) in enumerate(reversed(edges)):
+            g.add_edge(j, i, weight=1, color="rgb"[k % 3], length=2.5 + k)
+        for v in g.nodes:
+            g.nodes[v]["pos"] = (v, -v)
+    else:
+        raise ValueError(kind)
+    return g
+
+
+def _gfp(g):
+    """everything a caller can observe of a networkx graph: node order, adjacency order, attribute dictionaries"""
+    return ([(u, sorted(d.items(), key=repr)) for u, d in g.nodes(data=True)],
+            [(u, [(v, sorted(d.items(), key=repr)) for v, d in nb.items()]) for u, nb in g.adj.items()], sorted(g.graph.items(), key=repr))
+
+
+CL_EQUAL = CL_DISTINCT + " (the with_iso duplicate test: two graphs are the same exactly when they have the same adjacency matrix)"
+
+
+@S.item("_equal_graphs.adjacency_definition", site=f"{_RM}:_equal_graphs",
+        bound="ALL ordered pairs of labelled graphs on n<=4 vertices (4165) x a rotating pair of constructions out of {from_numpy_array int, from_numpy_array "
+              "float, no edge attributes, extra attributes} x both argument orders; nodes inserted 0..n-1 in both graphs", exhaustive=True, clause=CL_EQUAL)
+def c_equal_graphs(inp):
+    a, ka, b, kb = inp
+    A, B = _A(a), _A(b)
+    g1, g2 = _build(ka, A), _build(kb, B)
+    f1, f2 = _gfp(g1), _gfp(g2)
+    want = np.array_equal(A, B)
+    for x, y, nm in ((g1, g2, "(g1,g2)"), (g2, g1, "(g2,g1)"), (g1, g2, "(g1,g2) again")):
+        got = rm._equal_graphs(x, y)
+        if bool(got) != want:
+            return f"_equal_graphs{nm} = {got!r} for graphs built as {ka}/{kb} whose adjacency matrices are {'equal' if want else 'different'}"
+    if _gfp(g1) != f1 or _gfp(g2) != f2:
+        return "an argument graph was modified"
+    return None
+
+
+@S.item("check_isomorphism.construction_variants", site=f"{_RM}:check_isomorphism",
+        bound="seeded: graph + list of 1..4 graphs on the same n<=5 vertices (identical / isomorphic / other members), every graph built in a seeded "
+              "construction out of {from_numpy_array int / float, no edge attributes, extra attributes} x _only_auto; quick 1500, thorough 15000",
+        clause=CL_DISTINCT + " (the duplicate test does not depend on how the graphs were built)")
+def c_check_iso_builds(inp):
+    a, ka, lst, only_auto = inp
+    A = _A(a)
+    g = _build(ka, A)
+    gl = [_build(kb, _A(b)) for b, kb in lst]
+    fps = [_gfp(x) for x in [g] + gl]
+    if only_auto:
+        want = any(np.array_equal(A, _A(b)) for b, _ in lst)
+    else:
+        want = any(L.find_isomorphism(A, _A(b)) is not None for b, _ in lst)
+    for k in (1, 2):
+        got = rm.check_isomorphism(g, gl, _only_auto=bool(only_auto))
+        if bool(got) != want:
+            return f"call #{k}: returned {got!r}, expected {want} (graph built as {ka}, list members as {[kb for _, kb in lst]})"
+    if [_gfp(x) for x in [g] + gl] != fps:
+        return "an argument graph was modified"
+    return None
+
+
+def _explore(fn, g, opts):
+    if fn == "lc_orbit_finder":
+        depth, size, with_iso, rand, rep, npseed = opts
+        np.random.seed(npseed)
+        return rm.lc_orbit_finder(g, comp_depth=depth, orbit_size_thresh=size, with_iso=bool(with_iso), rand=bool(rand), rep_allowed=bool(rep)), not rep
+    if fn == "rgs_orbit_finder":
+        return rm.rgs_orbit_finder(g), True
+    if fn == "linear_partial_orbit":
+        return rm.linear_partial_orbit(g), bool(opts)  # opts: labelled along the chain
+    if fn == "depth_first_orbit":
+        return rm.depth_first_orbit(g), False
+    raise ValueError(fn)
+
+
+def _explorer_case(inp, order=None):
+    fn, kind, a, opts = inp
+    A = _A(a)
+    g = _build(kind, A, order)
+    f0 = _gfp(g)
+    for k in (1, 2):  # the same graph object is explored twice
+        out, distinct = _explore(fn, g, opts)
+        what = f"{fn}(graph built as {kind}{'' if order is None else ', nodes inserted as ' + str(list(order))}; {opts}) call #{k}"
+        if _gfp(g) != f0:
+            return f"{what}: the input graph was modified"
+        r = _check_orbit_list(A, out, distinct, what)
+        if r:
+            return r
+    if fn in ("lc_orbit_finder", "depth_first_orbit") and order is None and len(A) >= 3:
+        # query - edit - query: the caller toggles the edge (0,1) of the graph it holds (another vertex pair if that disconnects it) and explores again
+        n = len(A)
+        for u, v in ((0, 1), (0, 2), (1, 2)):
+            A2 = A.copy()
+            A2[u, v] = A2[v, u] = 1 - A2[u, v]
+            if R.is_connected(A2):
+                break
+        else:
+            return None
+        if A2[u, v]:
+            g.add_edge(u, v)
+        else:
+            g.remove_edge(u, v)
+        out, distinct = _explore(fn, g, opts)
+        r = _check_orbit_list(A2, out, distinct, f"{fn}(graph built as {kind}; {opts}) after the caller toggled the edge ({u},{v}) of the explored graph")
+        if r:
+            return r
+    return None
+
+
+@S.item("orbit_explorers.construction_variants", site=f"{_RM}:lc_orbit_finder, rgs_orbit_finder, linear_partial_orbit, depth_first_orbit, check_isomorphism, _equal_graphs",
+        bound="nodes inserted 0..n-1 (other insertion orders: fixed items orbit_explorers.node_order, _equal_graphs.node_order). lc_orbit_finder: ALL connected graphs on 3,4 vertices + "
+              "path / cycle / star on 5,6 vertices + seeded connected graphs on 5 vertices (quick 12, thorough 200) x the 4 constructions x comp_depth {1,2,3} "
+              "x with_iso x rep_allowed (+ rand=True at depth 2, + orbit_size_thresh 4 at depth 3); rgs_orbit_finder: repeater graphs with 2,3 cores; "
+              "linear_partial_orbit: chains on 3..7 vertices; depth_first_orbit: connected graphs on 3,4 vertices; each x the 4 constructions. Per case the "
+              "SAME graph object is explored twice (it must stay unchanged), then the caller toggles one edge of it and explores again (lc_orbit_finder, depth_first_orbit)", clause=CL_ORBIT + "; " + CL_DISTINCT + " - for every way the input graph is built")
+def c_explorer_builds(inp):
+    return _explorer_case(inp)
+
+
+@S.item("_equal_graphs.node_order", site=f"{_RM}:_equal_graphs, check_isomorphism",
+        bound="fixed list, seed-independent: ALL ordered pairs of labelled graphs on 3 vertices and of connected graphs on 4 vertices x 3 combinations of node "
+              "insertion orders (sorted/shuffled, shuffled/sorted, shuffled/other shuffle), constructions plain / from_numpy_array-like", exhaustive=True,
+        clause=CL_EQUAL + " - vertices are compared by label: a networkx graph does not depend on the order in which its nodes were added")
+def c_equal_graphs_order(inp):
+    a, o1, b, o2 = inp
+    A, B = _A(a), _A(b)
+    g1, g2 = _build("plain", A, o1), _build("np", B, o2)
+    want = np.array_equal(A, B)
+    got = rm._equal_graphs(g1, g2)
+    if bool(got) != want:
+        return f"_equal_graphs = {got!r} for {'the same' if want else 'different'} labelled graphs whose nodes were inserted as {o1} / {o2}"
+    got = rm.check_isomorphism(g1, [g2], _only_auto=True)
+    if bool(got) != want:
+        return f"check_isomorphism(_only_auto=True) = {got!r} for {'the same' if want else 'different'} labelled graphs whose nodes were inserted as {o1} / {o2}"
+    return None
+
+
+NODE_ORDERS = {3: [[1, 0, 2], [2, 1, 0]], 4: [[3, 2, 1, 0], [1, 2, 3, 0]], 5: [[4, 0, 3, 1, 2]], 6: [[5, 3, 1, 0, 2, 4]]}
+
+
+@S.item("orbit_explorers.node_order", site=f"{_RM}:lc_orbit_finder, rgs_orbit_finder, linear_partial_orbit, depth_first_orbit ; "
+        "graphiq.backends.lc_equivalence_check:local_comp_graph",
+        bound="fixed sample, seed-independent (regression inputs of the repaired node-order defects of local_comp_graph / _equal_graphs): graphs on the vertices 0..n-1 whose nodes were INSERTED in another order "
+              "(nx.Graph(edge list) / relabel_nodes produce such graphs): path, star, cycle, paw on 4 vertices, path on 3 and 5 vertices, repeater graph on 4 and 6 vertices x "
+              "1-2 insertion orders x {lc_orbit_finder depth 1 / depth 2 with_iso, depth_first_orbit, linear_partial_orbit (paths), rgs_orbit_finder (repeater graphs)}",
+        exhaustive=True, clause=CL_ORBIT + " (a networkx graph does not depend on the order in which its nodes were added)")
+def c_explorer_node_order(inp):
+    fn, kind, a, opts, order = inp
+    return _explorer_case([fn, kind, a, opts], order=order)
+
+
+@S.item("relabel_map.round_trip", site=f"{_RM}:get_relabel_map, relabel, iso_finder",
+        bound="graph 2 = graph 1 relabelled by a permutation that is NOT an involution (contains a cycle of length >= 3): ALL graphs on 3,4 vertices x all such "
+              "permutations (2 + 14 per graph) + seeded graphs on 5..7 and (every fourth) 10..12 vertices (quick 300, thorough 3000); graphs given as int / float arrays or networkx "
+              "graphs of the 4 constructions: relabel(adj1, get_relabel_map(g1, g2)) must be adj2; and for iso_finder(adj1, n_iso in {3,6}, label_map=True, "
+              "seeds 0..2) every (matrix_i, map_i): relabel(adj1, map_i) = matrix_i; arguments unchanged", clause=CL_MAP + "; " + CL_RELABEL)
+def c_round_trip(inp):
+    form, a, p = inp
+    A = _A(a)
+    n = len(A)
+    B = L.relabelled(A, p)
+    if form in ("int", "float"):
+        g1, g2 = (A.copy(), B.copy()) if form == "int" else (A.astype(float), B.astype(float))
+        fp = lambda: (g1.dtype.str, g1.tobytes(), g2.dtype.str, g2.tobytes())  # noqa: E731
+    else:
+        g1, g2 = _build(form, A), _build(form, B)
+        fp = lambda: (_gfp(g1), _gfp(g2))  # noqa: E731
+    f0 = fp()
+    for k in (1, 2):
+        m = rm.get_relabel_map(g1, g2)
+        r = _check_map(A, B, m, f"get_relabel_map call #{k} ({form})")
+        if r:
+            return r
+        lab = np.array([int(m[u]) for u in range(n)])
+        out = rm.relabel(A.copy(), lab)
+        if not np.array_equal(out, B):
+            return f"relabel(adj1, get_relabel_map(adj1, adj2)) = {np.array(out).tolist()} is not adj2 = {B.tolist()} (map {[int(x) for x in lab]})"
+        if fp() != f0:
+            return "get_relabel_map modified an argument"
+    if form in ("int", "float") and n <= 5:
+        for n_iso in (3, 6):
+            for sd in (0, 1, 2):
+                with warnings.catch_warnings():
+                    warnings.simplefilter("ignore")
+                    res = rm.iso_finder(g1, n_iso, label_map=True, seed=sd)
+                if fp() != f0:
+                    return f"iso_finder(n_iso={n_iso}, seed={sd}) modified its matrix argument ({form})"
+                if not isinstance(res, tuple):
+                    continue  # early return path: bare array (see findings: accepted)
+                arr, maps = res
+                if len(arr) > n_iso or not np.array_equal(np.array(arr[0]).astype(int), A):
+                    return f"iso_finder(n_iso={n_iso}, seed={sd}) returned {len(arr)} matrices / not the input first"
+                for M, mp in zip(arr, maps):
+                    lab = np.array([int(mp[u]) for u in range(n)])
+                    if not np.array_equal(rm.relabel(A.copy(), lab), np.array(M).astype(int)):
+                        return f"iso_finder(n_iso={n_iso}, seed={sd}): relabel(input, map) != returned matrix for map {[int(x) for x in lab]}"
+    return None
+
+
+@S.item("iso_finder.argument_frames", site=f"{_RM}:iso_finder, automorph_check, relabel",
+        bound="ALL graphs on 3,4 vertices + 40 seeded graphs on 5,6 vertices x dtype {int64, float64, int32} x n_iso {1,3,7} x sort_emit x seeds {0,1}: "
+              "iso_finder called twice with the SAME array object: the array is bit-for-bit unchanged, both results satisfy the isomorph-finder clauses "
+              "(also automorph_check / relabel called directly on the array)", clause=CL_ISO + "; " + CL_FIRST + " (without modifying the argument, on repeated use)")
+def c_iso_frames(inp):
+    a, dt, n_iso, sort_emit, sd = inp
+    A = _A(a)
+    n = len(A)
+    X = A.astype({"int64": np.int64, "float64": np.float64, "int32": np.int32}[dt])
+    f0 = (X.dtype.str, X.shape, X.tobytes())
+    if n_iso > math.factorial(n):
+        return None
+    for k in (1, 2):
+        with warnings.catch_warnings():
+            warnings.simplefilter("ignore")
+            out = rm.iso_finder(X, n_iso, sort_emit=bool(sort_emit), seed=sd)
+        if (X.dtype.str, X.shape, X.tobytes()) != f0:
+            return f"iso_finder call #{k} modified its {dt} matrix argument"
+        arr = np.array(out)
+        if arr.ndim != 3 or arr.shape[1:] != (n, n) or not (1 <= len(arr) <= n_iso):
+            return f"call #{k}: result shape {arr.shape} for n_iso={n_iso}"
+        if not np.array_equal(arr[0].astype(int), A):
+            return f"call #{k}: first returned matrix is not the input"
+        keys = [L.key(M) for M in arr]
+        if len(set(keys)) != len(keys):
+            return f"call #{k}: the same adjacency matrix is returned twice"
+        for i, M in enumerate(arr):
+            if not L.is_simple_adj(M, n) or L.find_isomorphism(A, np.array(M, dtype=int)) is None:
+                return f"call #{k}: element {i} = {np.array(M).tolist()} is not a simple graph isomorphic to the input"
+    labels = np.array([list(range(n)), list(range(n))[::-1], list(np.roll(np.arange(n), 1))])
+    lf = labels.tobytes()
+    out = np.array(rm.automorph_check(X, labels))
+    if (X.dtype.str, X.shape, X.tobytes()) != f0 or labels.tobytes() != lf:
+        return f"automorph_check modified an argument ({dt})"
+    want = {L.key(L.relabelled(A, p)) for p in labels} | {L.key(A)}
+    if {L.key(M) for M in out} != want or len(out) != len(want) or not np.array_equal(out[0].astype(int), A):
+        return f"automorph_check on a {dt} matrix: wrong set of relabellings / input not first"
+    return None
+
+
 # ------------------------------------------------------------------ domains
 def _graphs(nmax):
     return [A.tolist() for n in range(1, nmax + 1) for A in R.all_graphs(n)]
@@ -550,6 +815,103 @@ def run(tier, seed):
                 lst.append(gs[int(rng.integers(len(gs)))].tolist())
         ci.append([A.tolist(), lst, bool(rng.integers(2))])
     S.map("check_isomorphism.exists", ci, nontrivial=lambda i: len(i[1]) > 0)
+
+    # construction variants / frames / repeated use -------------------------------------------------------
+    rb = np.random.default_rng([seed, 1616])
+    nb = len(BUILDS)
+    eq_in = [[a, BUILDS[k % nb], b, BUILDS[(k // nb + k) % nb]] for k, (a, b) in enumerate((a, b) for a in g4 for b in g4 if len(a) == len(b))]
+    S.map("_equal_graphs.adjacency_definition", eq_in, nontrivial=lambda i: i[0] == i[2] and any(any(r) for r in i[0]))
+
+    cb = []
+    for _ in range(15000 if thorough else 1500):
+        n = int(rb.integers(3, 6))
+        gs = pools[n]
+        A = gs[int(rb.integers(len(gs)))]
+        lst = []
+        for _ in range(int(rb.integers(1, 5))):
+            r = rb.random()
+            if r < 0.3:
+                M = A
+            elif r < 0.55:
+                M = L.relabelled(A, rb.permutation(n))
+            else:
+                M = gs[int(rb.integers(len(gs)))]
+            lst.append([np.array(M).tolist(), BUILDS[int(rb.integers(nb))]])
+        cb.append([A.tolist(), BUILDS[int(rb.integers(nb))], lst, bool(rb.integers(2))])
+    S.map("check_isomorphism.construction_variants", cb)
+
+    def named(n):
+        Pa = L.path_graph(n)
+        Cy = Pa.copy()
+        Cy[0, n - 1] = Cy[n - 1, 0] = 1
+        St = np.zeros((n, n), dtype=int)
+        St[0, 1:] = St[1:, 0] = 1
+        return [Pa.tolist(), Cy.tolist(), St.tolist()]
+
+    ex_graphs = [A.tolist() for n in (3, 4) for A in L.connected_graphs(n)] + named(5) + named(6)
+    ex_graphs += [c5[int(i)] for i in rb.choice(len(c5), 200 if thorough else 12, replace=False)]
+    ex = []
+    for a in ex_graphs:
+        for kind in BUILDS:
+            for depth in (1, 2, 3):
+                for with_iso in (False, True):
+                    for rep in (False, True):
+                        if rep and len(a) >= 6 and depth == 3:
+                            continue  # n^3 graphs with repetitions: nothing new to see, only slow
+                        ex.append(["lc_orbit_finder", kind, a, [depth, None, with_iso, False, rep, 0]])
+            ex.append(["lc_orbit_finder", kind, a, [2, None, True, True, False, int(rb.integers(2**31))]])
+            ex.append(["lc_orbit_finder", kind, a, [3, 4, True, False, False, 0]])
+    for kind in BUILDS:
+        ex += [["rgs_orbit_finder", kind, L.repeater_graph(m).tolist(), None] for m in (2, 3)]
+        ex += [["linear_partial_orbit", kind, L.path_graph(n).tolist(), True] for n in range(3, 8)]
+        ex += [["depth_first_orbit", kind, A.tolist(), None] for n in (3, 4) for A in L.connected_graphs(n)]
+    S.map("orbit_explorers.construction_variants", ex, nontrivial=lambda i: len(L.orbit_of(_A(i[2]))) > 1)
+
+    # node insertion order: FIXED list (independent of tier and seed)
+    paw = [[0, 1, 1, 0], [1, 0, 1, 0], [1, 1, 0, 1], [0, 0, 1, 0]]
+    no = []
+    for a in [L.path_graph(3).tolist()] + named(4) + [paw, L.path_graph(5).tolist()]:
+        for order in NODE_ORDERS[len(a)]:
+            no.append(["lc_orbit_finder", "plain", a, [1, None, True, False, False, 0], order])
+            no.append(["lc_orbit_finder", "plain", a, [2, None, True, False, False, 0], order])
+            no.append(["depth_first_orbit", "plain", a, None, order])
+    for n in (3, 4, 5):
+        for order in NODE_ORDERS[n]:
+            no.append(["linear_partial_orbit", "plain", L.path_graph(n).tolist(), False, order])
+    for m in (2, 3):
+        for order in NODE_ORDERS[2 * m]:
+            no.append(["rgs_orbit_finder", "plain", L.repeater_graph(m).tolist(), None, order])
+    S.map("orbit_explorers.node_order", no)
+
+    eo = []
+    for n, gs in ((3, list(R.all_graphs(3))), (4, L.connected_graphs(4))):
+        o = NODE_ORDERS[n]
+        srt = list(range(n))
+        for A in gs:
+            for B in gs:
+                for o1, o2 in ((srt, o[0]), (o[1], srt), (o[0], o[1])):
+                    eo.append([A.tolist(), o1, B.tolist(), o2])
+    S.map("_equal_graphs.node_order", eo, nontrivial=lambda i: i[0] == i[2])
+
+    def non_involutions(n):
+        return [list(q) for q in itertools.permutations(range(n)) if any(q[q[i]] != i for i in range(n))]
+
+    forms = ("int", "float") + BUILDS
+    rt = [[forms[k % 6], a, q] for k, (a, q) in enumerate((a, q) for a in g4 if len(a) >= 3 for q in non_involutions(len(a)))]
+    k = 0
+    while k < (3000 if thorough else 300):
+        n = int(rb.integers(5, 8)) if k % 4 else int(rb.integers(10, 13))  # every fourth: two-digit vertex labels
+        q = [int(x) for x in rb.permutation(n)]
+        if all(q[q[i]] == i for i in range(n)):
+            continue
+        rt.append([forms[k % 6], _rand_graph(n, rb, rb.random()).tolist(), q])
+        k += 1
+    S.map("relabel_map.round_trip", rt, nontrivial=lambda i: any(any(r) for r in i[1]))
+
+    fr_graphs = [a for a in g4 if len(a) >= 3] + [_rand_graph(int(rb.integers(5, 7)), rb, rb.random()).tolist() for _ in range(40)]
+    fr = [[a, dt, n_iso, se, sd] for a in fr_graphs for dt in ("int64", "float64", "int32") for n_iso in (1, 3, 7) for se in (False, True) for sd in (0, 1)
+          if n_iso <= math.factorial(len(a))]
+    S.map("iso_finder.argument_frames", fr, nontrivial=lambda i: i[2] > 1)
 
     S.note("iso_finder: AssertionError 'more than the maximum possible' is accepted as a refusal only when n_iso > n! (the function's own documented guard)")
     S.note("lc_orbit_finder(rand=True) draws from the global numpy generator; the monitor seeds it from the input so that replays are exact")
